@@ -262,11 +262,32 @@ pub fn miri_run(args: &[String]) -> i32 {
             }
         }
     }
+    // the iterator protocol around the end of a calculator (the self-referential calculators keep iterators / references into
+    // their own boxed objects): in-range nth, nth far past the end, then every call again - nothing may be yielded any more
+    let mut after_end = 0;
+    for mode in ["osu", "taiko", "catch", "mania"] {
+        let map = lifecycle_map(mode);
+        for first in [0usize, 2] {
+            let mut g = rosu_pp::GradualDifficulty::new(rosu_pp::Difficulty::new(), &map);
+            let total = g.len();
+            let _ = g.nth(first);
+            let past = g.nth(total + 3);
+            assert!(past.is_none(), "{mode}: nth past the end yields nothing");
+            assert!(g.next().is_none() && g.nth(0).is_none() && g.nth(5).is_none(), "{mode}: an exhausted calculator yields nothing");
+            assert_eq!(g.len(), 0, "{mode}: nothing remains");
+            after_end += 1;
+            let mut gp = rosu_pp::GradualPerformance::new(rosu_pp::Difficulty::new(), &map);
+            let _ = gp.nth(rosu_pp::any::ScoreState::new(), first);
+            let _ = gp.nth(rosu_pp::any::ScoreState::new(), total + 3);
+            assert!(gp.next(rosu_pp::any::ScoreState::new()).is_none() && gp.last(rosu_pp::any::ScoreState::new()).is_none(), "{mode}: an exhausted performance calculator yields nothing");
+        }
+    }
     // the strain list under every op, incl. the unsafe transmute and slice casts
     #[cfg(not(verif_degraded))]
     let (a, b, c) = {
         let mut v = rosu_pp::verif::StrainsVec::with_capacity(2);
-        for x in [1.0, 0.0, 0.0, 2.5, -1.0, 0.0, 3.0] {
+        // (values no strain should have - negative, -0.0, negative subnormal, NaN with the sign bit - are zeros to the list)
+        for x in [1.0, 0.0, 0.0, 2.5, -1.0, 0.0, 3.0, -0.0, -5e-324, f64::from_bits(0xFFF8_0000_0000_0000), f64::NEG_INFINITY, 4.0] {
             v.push(x);
         }
         let a = v.clone().into_vec();
@@ -291,6 +312,6 @@ pub fn miri_run(args: &[String]) -> i32 {
     for (text, _) in pathbuf_cases("quick").iter().take(12) {
         let _ = Beatmap::from_str(text);
     }
-    println!("miri-run: lifecycle steps={} strains={:?}/{:?}/{:?}", steps, a.len(), b.len(), c.len());
+    println!("miri-run: lifecycle steps={} after_end={} strains={:?}/{:?}/{:?}", steps, after_end, a.len(), b.len(), c.len());
     0
 }
